@@ -37,7 +37,7 @@ type fakeClient struct {
 	fmu   sync.Mutex
 	user  string
 	perms []string
-	g        atomic.Pointer[group.Group]
+	g     atomic.Pointer[group.Group]
 	// hooks: called (if set) at the start of the callback
 	onPermissions func()
 	onJoined      func(kind string)
@@ -54,9 +54,9 @@ func (c *fakeClient) GetStats() *stats.Client {
 	return &stats.Client{Id: c.id}
 }
 
-func (c *fakeClient) Group() *group.Group          { return c.g.Load() }
-func (c *fakeClient) Addr() net.Addr               { return nil }
-func (c *fakeClient) Id() string                   { return c.id }
+func (c *fakeClient) Group() *group.Group { return c.g.Load() }
+func (c *fakeClient) Addr() net.Addr      { return nil }
+func (c *fakeClient) Id() string          { return c.id }
 func (c *fakeClient) Username() string {
 	c.fmu.Lock()
 	defer c.fmu.Unlock()
